@@ -26,7 +26,8 @@ ASSUMPTIONS = [
     'the number of missed cleavages of a peptide is bounded from above by the bonds that may '
     'be cut given any flanking residues (vf.enz.possible_sites)',
 ]
-BUDGET = {'quick': 40, 'thorough': 1500}
+BUDGET = {'quick': 30, 'thorough': 1500}
+WALL = {'quick': 900, 'thorough': 3 * 3600}
 KINDS = ['misc', 'minlen', 'minmw', 'maxlen', 'sect', 'w2f', 'novel', 'add_record', 'add_record',
     'add_file', 'noncanonical', 'backsplicing']
 
